@@ -208,9 +208,10 @@ def cases(tier, seed):
         for li in range(len(R[n])):
             out.append({'f': n, 'kind': 'repro', 'recipe': li, 'base': seed})
     out.append({'f': 'get_rng', 'kind': 'get_rng'})
+    out.append({'f': 'nbs_parallel', 'kind': 'nbs_parallel', 'base': seed})
     if tier == 'thorough':
         out.append({'f': '*', 'kind': 'crossproc', 'base': seed})
-        out.append({'f': 'nbs_parallel', 'kind': 'nbs_parallel', 'base': seed})
+        out.append({'f': 'nbs_parallel', 'kind': 'nbs_parallel', 'base': seed + 1})
     return out
 
 
@@ -365,18 +366,28 @@ from bctmon import loader
 bct = loader.load()
 import numpy as np, io, contextlib
 from bct import nbs_parallel
-rs = np.random.RandomState(0)
+rs = np.random.RandomState(%(seed)d)
 x = rs.randn(6, 6, 4); x = x + np.transpose(x, (1, 0, 2))
 y = rs.randn(6, 6, 5); y = y + np.transpose(y, (1, 0, 2))
 x[0, 1] += 3; x[1, 0] += 3; x[1, 2] += 3; x[2, 1] += 3
-outs = []
-g0 = np.random.get_state()
-for rep in range(2):
+def run(seed, k, workers):
     with contextlib.redirect_stdout(io.StringIO()):
-        p, a, nl = nbs_parallel.nbs_bct(x.copy(), y.copy(), 1.5, k=8, seed=5, workers=2)
-    outs.append([np.asarray(p).tolist(), np.asarray(a).tolist(), np.asarray(nl).tolist()])
+        p, a, nl = nbs_parallel.nbs_bct(x.copy(), y.copy(), 1.5, k=k, seed=seed, workers=workers)
+    return [np.asarray(p).tolist(), np.asarray(a).tolist(), np.asarray(nl).tolist()]
+out = {}
+g0 = np.random.get_state()
+# k = 40 with 2 workers: the pool hands the permutations out in chunks of 5, k = 8: one by one
+for k, workers in ((40, 2), (8, 2), (24, 3)):
+    s = %(seed)d + k
+    a = run(s, k, workers); b = run(s, k, workers); c = run(np.random.RandomState(s), k, workers)
+    out['same_%%d_%%d' %% (k, workers)] = a == b
+    out['int_eq_rs_%%d_%%d' %% (k, workers)] = a == c
+    out['null_%%d_%%d' %% (k, workers)] = [a[2], c[2]]
 g1 = np.random.get_state()
-print('RESULT ' + json.dumps({'same': outs[0] == outs[1], 'global_untouched': bool(g0[0] == g1[0] and np.array_equal(g0[1], g1[1]) and g0[2:] == g1[2:])}))
+out['global_untouched'] = bool(g0[0] == g1[0] and np.array_equal(g0[1], g1[1]) and g0[2:] == g1[2:])
+np.random.seed(11); d = run(None, 24, 2); np.random.seed(11); e = run(None, 24, 2)
+out['unseeded_repro'] = d == e
+print('RESULT ' + json.dumps(out))
 '''
 
 
@@ -384,7 +395,7 @@ def nbs_parallel(case, REC):
     here = os.path.dirname(os.path.dirname(os.path.dirname(os.path.abspath(__file__))))
     REC.tag(PROP, 'exec')
     try:
-        p = subprocess.run([sys.executable, '-c', PAR % {'here': here}], capture_output=True, text=True, timeout=300)
+        p = subprocess.run([sys.executable, '-c', PAR % {'here': here, 'seed': int(case['base']) % 1000}], capture_output=True, text=True, timeout=300)
     except subprocess.TimeoutExpired:
         REC.tag(PROP, 'nbs_parallel_timeout')
         return
@@ -393,5 +404,13 @@ def nbs_parallel(case, REC):
         REC.tag(PROP, 'nbs_parallel_unavailable')
         return
     r = json.loads(line[0][7:])
-    REC.check(PROP, 'nbs_parallel.nbs_bct', 'same_seed_same_result', r['same'], r)
-    REC.check(PROP, 'nbs_parallel.nbs_bct', 'global_untouched', r['global_untouched'], r)
+    f = 'nbs_parallel.nbs_bct'
+    for k in sorted(r):
+        if k.startswith('same_'):
+            REC.check(PROP, f, 'same_seed_same_result', r[k], {'k_workers': k[5:]})
+        elif k.startswith('int_eq_rs_'):
+            REC.check(PROP, f, 'int_seed_equals_randomstate', r[k], {'k_workers': k[10:], 'null_int_seed': r['null_' + k[10:]][0],
+                                                                     'null_randomstate': r['null_' + k[10:]][1]}, ('chunked_pool_tasks',))
+    REC.check(PROP, f, 'global_untouched', r['global_untouched'], r)
+    REC.check(PROP, f, 'unseeded_function_of_global_state', r['unseeded_repro'], r)
+    REC.note_nontrivial(PROP, f, case['base'])
